@@ -5,6 +5,7 @@ mod absx;
 mod astp;
 mod escape;
 mod expand;
+mod facts;
 mod iters;
 mod meta;
 mod opts;
@@ -29,6 +30,7 @@ fn main() {
         "meta" => meta::cmd_meta(&opts),
         "escape" => escape::cmd_escape(&opts),
         "opts" => opts::cmd_opts(&opts),
+        "facts" => facts::cmd_facts(&opts),
         "savelog" => savelog::cmd_savelog(&opts),
         c => {
             eprintln!("unknown command {}", c);
